@@ -23,7 +23,7 @@ type reqSpec struct {
 	BodyLen  int        `json:"body_len"`
 	Chunks   []int      `json:"chunks,omitempty"`
 	HostPos  int        `json:"host_pos"`
-	Pipeline bool       `json:"pipeline"` // sent without waiting for the previous response
+	Pipeline bool       `json:"pipeline"`           // sent without waiting for the previous response
 	GapS     int        `json:"gap_s,omitempty"`    // the client leaves the connection idle this long before sending the request
 	HeadCut  int        `json:"head_cut,omitempty"` // ... and its head then arrives in two segments, cut at this offset (0: one write)
 }
